@@ -123,11 +123,9 @@ def run_simple(prop, tier, seed, cmd, mc, trace, instances, level='model_checkin
         res = vlib.pool_map(val, tasks, max(2, vlib.NCPU - 2))
         viols = [d for r in res for d in r]
         if collect is not None:
+            import checks
             for j in jobs:
-                if j.get('shards'):
-                    with open(j['shards'][0]) as f:
-                        lines = [next(f, None) for _ in range(3)]
-                    j['samples'] = dict(instance=j['tag'], first_records=[json.loads(l) for l in lines if l])
+                j['samples'] = checks.sample_records(j)
             collect.append((jobs, viols))
             return 0
         return finish_simple(prop, tier, seed, jobs, viols, t0, level)
@@ -161,9 +159,9 @@ def finish_simple(prop, tier, seed, jobs, viols, t0, level, extra_cov=None):
         if j.get('samples'):
             samples.append(j['samples'])
         elif j.get('shards') and os.path.exists(j['shards'][0]):
-            with open(j['shards'][0]) as f:
-                lines = [next(f, None) for _ in range(3)]
-            samples.append(dict(instance=j['tag'], first_records=[json.loads(l) for l in lines if l]))
+            sr = checks.sample_records(j)
+            if sr:
+                samples.append(sr)
     cov = dict(states=states, transitions=trans, traces_validated_against_impl=tests, evaluations=events,
                distinct_nontrivial=nontriv,
                rule='every reachable abstract state of each listed instance (TLC closure) x every operation is executed on the real '
